@@ -132,6 +132,22 @@ def check(inp):
         l2 = jk.rejection_sample(data, 40, return_all_logprobs=True, in_memory=True)[1]
         if np.array_equal(np.asarray(l1), np.asarray(l2)):
             bad("successive-calls-draw-fresh-prior-samples")
+        # the child generators handed to the tasks: raw output of every child of two successive calls (and of every batch within a call) must
+        # be disjoint - streams that merely start a few draws apart repeat each other's numbers
+        import schwimmbad
+        from thejoker.multiproc_helpers import run_worker
+        g2 = np.random.default_rng(inp["seed"])
+        raw = lambda task: [int(v) for v in task[-1].integers(0, 2 ** 62, size=400)]
+        seen, clash = {}, None
+        for call in range(3):
+            g2.uniform(size=16)             # what a sampling call draws on the parent between two rounds of spawning
+            for b_, vals in enumerate(run_worker(raw, schwimmbad.SerialPool(), path, n_batches=3, rng=g2)):
+                for v in vals:
+                    if v in seen and seen[v] != (call, b_):
+                        clash = (seen[v], (call, b_))
+                    seen[v] = (call, b_)
+        if clash:
+            bad("child-streams-of-different-batches-and-calls-do-not-overlap", first=clash[0], second=clash[1])
         joker = TheJoker(prior, rng=np.random.default_rng(inp["seed"]))
         a = joker.rejection_sample(data, path, n_batches=3, n_linear_samples=3)
         b = joker.rejection_sample(data, path, n_batches=3, n_linear_samples=3)
